@@ -82,6 +82,28 @@ def gen_script(rnd, tier, state):
     if persistent:
         L.append("persist")
     p_reload = rnd.choice([0.05, 0.1, 0.2]) if persistent else 0.0
+    if mix is False and rnd.random() < 0.25:
+        # one hashable component under several names of an interface FIRST, then the first unhashable component for that interface
+        # (the counter switches representation and has to carry the counts over), then one of the names goes away
+        pp = rnd.choice([1, 2])
+        v = val(False)
+        while not v[2]:
+            v = val(False)
+        nms = rnd.sample(UNAMES, rnd.choice([2, 3]))
+        for nn in nms:
+            L.append("regU|%s|%d|%s|" % (sv(v), pp, nn))
+            S.util[(pp, nn)] = (v, "")
+            L += observations()
+        state["vid"] += 1
+        u = (state["vid"], rnd.randint(4, 6), 0)
+        free = [x for x in UNAMES + ["c"] if x not in nms]
+        L.append("regU|%s|%d|%s|" % (sv(u), pp, free[0]))
+        S.util[(pp, free[0])] = (u, "")
+        L += observations()
+        for nn in rnd.sample(nms, len(nms)):
+            L.append("unregU|%s|%d|%s" % (sv(rnd.choice([None, v])), pp, nn))
+            del S.util[(pp, nn)]
+            L += observations()
     for step in range(rnd.randint(5, 40 if tier == "thorough" else 28)):
         k = rnd.random()
         # a rebuilt counter differs from an empty one only where a component is registered more than once for an interface
